@@ -21,6 +21,7 @@ import (
 	"path/filepath"
 	"strconv"
 	"strings"
+	"sync"
 	"time"
 
 	"verif/harness/internal/filt"
@@ -472,6 +473,15 @@ func locate(tmp string, fr filt.Rule, c ctxT) string {
 	return ""
 }
 
+// lockedStdout: one result line per Write, shared with the goroutines that forward the children's lines
+type lockedStdout struct{}
+
+func (lockedStdout) Write(p []byte) (int, error) {
+	outMu.Lock()
+	defer outMu.Unlock()
+	return os.Stdout.Write(p)
+}
+
 type ruleT struct {
 	in    inst
 	sh    shape
@@ -577,7 +587,21 @@ func main() {
 		runProduct(*tmp, *full, skip, *prodBatch, *prodLo, *prodHi)
 		return
 	}
-	enc := json.NewEncoder(os.Stdout)
+	enc := json.NewEncoder(lockedStdout{})
+	// the child-process sweeps (deep: recursive / cyclic / very large types; product: pattern roots of every kind x every filter
+	// operation over the catalogue target), each under both alias modes, run beside the column sweep of this process
+	var pwg sync.WaitGroup
+	for _, alias := range []string{"0", "1"} {
+		pwg.Add(2)
+		go func(alias string) {
+			defer pwg.Done()
+			spawnDeep(enc, *tmp, alias, 90*time.Second)
+		}(alias)
+		go func(alias string) {
+			defer pwg.Done()
+			spawnProduct(enc, *tmp, alias, *full, 240*time.Second)
+		}(alias)
+	}
 	t, err := hutil.CheckTarget(*tmp, "target/target.go", []byte(target()))
 	if err != nil {
 		fmt.Fprintln(os.Stderr, err)
@@ -745,13 +769,6 @@ func main() {
 			enc.Encode(result{K: "render", Inst: "true", Shape: "all", Trunc: tl, GoVer: gv, Reused: c.reused, File: c.file, LoadErr: lerr, Panic: pmsg, Bad: bads, Reports: n})
 		}
 	}
-	// recursive / cyclic / very large types under every type predicate, in child processes
-	for _, alias := range []string{"0", "1"} {
-		spawnDeep(enc, *tmp, alias, 90*time.Second)
-	}
-	// pattern roots of every kind x every filter operation over the catalogue target, under both alias modes
-	for _, alias := range []string{"0", "1"} {
-		spawnProduct(enc, *tmp, alias, *full, 240*time.Second)
-	}
+	pwg.Wait()
 	enc.Encode(map[string]interface{}{"k": "meta", "rules": len(rules), "contexts": len(ctxs), "shapes": len(shapes)})
 }
